@@ -51,6 +51,10 @@ def units(tier):
         us.append({"kind": "Peek", "members": [m]})
         for off in (0, 1, 2, -1, -2, 9):
             us.append({"kind": "Pointer", "members": [m], "offset": off})
+        for off in (0, 1, 2, -1):
+            for q in (0, 2):
+                us.append({"kind": "PointerAux", "members": [m], "offset": off, "auxpos": q})
+            us.append({"kind": "PointerRoot", "members": [m], "offset": off})
     for a, b in itertools.product([n for n in names if n != "Error"], repeat=2):
         for pf in (None, 0, 1, "m1", "expr"):
             us.append({"kind": "Union", "members": [a, b], "parsefrom": pf})
@@ -172,6 +176,10 @@ def mk_comb(unit, mnames):
         return C.Peek(mds[0]), mds
     if k == "Pointer":
         return C.Pointer(unit["offset"], mds[0]), mds
+    if k == "PointerAux":
+        return C.Pointer(unit["offset"], mds[0], stream=C.this._params.aux), mds
+    if k == "PointerRoot":
+        return C.Struct("body" / C.FixedSized(2, C.Struct("p" / C.Pointer(unit["offset"], mds[0], stream=C.this._root._io), "x" / C.Byte)), "t" / C.Byte), mds
     if k == "Union":
         pf = unit["parsefrom"]
         if pf == "expr":
@@ -304,6 +312,123 @@ def check_build(unit, mnames, comb, mds, value, pos):
     return []
 
 
+HOST = bytes([0x10, 0x11, 0x12, 0x13])
+
+
+def check_pointer_stream(unit, mnames, comb, mds, data, pos, op, value=None):
+    """Pointer(stream=...) operates on the designated stream and restores THAT stream; the calling stream is not moved.
+    PointerAux: the other stream comes in through the context (calling stream HOST at pos, aux = data at auxpos).
+    PointerRoot: the Pointer sits in a FixedSized sub-stream and dereferences the root stream."""
+    import construct as C
+    kind, off = unit["kind"], unit["offset"]
+    tsig = "%s(%s):%s" % (kind, ",".join(mnames), off)
+    case = {"unit": unit, "members": mnames, "data": data, "start": pos, "op": op, "value": repr(value)}
+    def bad(k, detail):
+        return "bad", [{"sig": "C09/%s/%s" % (k, tsig), "case": case, "detail": "%s %s, data %s, start %d: %s" % (tsig, op, data.hex(), pos, detail)}]
+    target = off if off >= 0 else max(0, len(data) + off)
+    if kind == "PointerAux":
+        q = unit["auxpos"]
+        if q > len(data):
+            return "skip", []
+        aux = io.BytesIO(data); aux.seek(q)
+        host = io.BytesIO(HOST); host.seek(pos)
+        if op == "parse":
+            want = solo(mds[0], data, target)
+            try:
+                with watchdog(3):
+                    v = comb.parse_stream(host, aux=aux)
+                got = ("ok", T.norm(v))
+            except C.ExplicitError:
+                got = ("explicit",)
+            except C.ConstructError as e:
+                got = ("fail", type(e).__name__)
+            except Exception as e:
+                return bad("parse-foreign", "raised %s" % type(e).__name__)
+            if want[0] != got[0]:
+                return bad("pointer-stream-outcome", "%r, the member alone on the designated stream gives %r" % (got, want))
+            if got[0] != "ok":
+                return "fail", []
+            if not T.eqv(got[1], want[1]):
+                return bad("value-differs-from-solo", "returned %r, solo run gives %r" % (got[1], want[1]))
+            if host.tell() != pos or aux.tell() != q:
+                return bad("pointer-stream-positions", "calling stream left at %d (was %d), designated stream left at %d (was %d)" % (host.tell(), pos, aux.tell(), q))
+            return "ok", []
+        # build
+        try:
+            sb = ("ok", mds[0].build(value))
+        except C.ExplicitError:
+            sb = ("explicit",)
+        except Exception as e:
+            sb = ("fail",)
+        try:
+            with watchdog(3):
+                comb.build_stream(value, host, aux=aux)
+            got = ("ok",)
+        except C.ExplicitError:
+            got = ("explicit",)
+        except Exception as e:
+            got = ("fail",)
+        if got[0] != sb[0]:
+            return bad("pointer-stream-build-outcome", "%r, the member alone gives %r" % (got, sb[0]))
+        if got[0] != "ok":
+            return "fail", []
+        buf = bytearray(data)
+        if target > len(buf):
+            buf += bytes(target - len(buf))
+        buf[target:target + len(sb[1])] = sb[1]
+        if aux.getvalue() != bytes(buf) or aux.tell() != q or host.getvalue() != HOST or host.tell() != pos:
+            return bad("pointer-stream-build", "designated stream %s pos %d (expected %s pos %d), calling stream %s pos %d (expected %s pos %d)" % (
+                aux.getvalue().hex(), aux.tell(), bytes(buf).hex(), q, host.getvalue().hex(), host.tell(), HOST.hex(), pos))
+        return "ok", []
+    # PointerRoot (parse): body = data[pos:pos+2], x = data[pos], t = data[pos+2], end pos+3; p read from the root stream
+    if len(data) < pos + 3:
+        return "skip", []
+    want = solo(mds[0], data, target)
+    got = run_comb(comb, data, pos)
+    if got[0] in ("foreign", "hang"):
+        return bad("parse-" + got[0], "raised %s" % (got[1],))
+    if want[0] != "ok":
+        if got[0] == "ok":
+            return bad("accepts-what-no-member-accepts", "returned %r" % (got[1],))
+        return "fail", []
+    exp = {"body": {"p": want[1], "x": data[pos]}, "t": data[pos + 2]}
+    if got[0] != "ok":
+        return bad("rejects-what-a-member-accepts", "raised %s, contract gives %r" % (got[1], exp))
+    if not T.eqv(got[1], exp):
+        return bad("value-differs-from-solo", "returned %r, contract gives %r" % (got[1], exp))
+    if got[2] != pos + 3:
+        return bad("position-differs", "stream left at %d, contract says %d" % (got[2], pos + 3))
+    return "ok", []
+
+
+def run_pointer_stream(unit, tier, r, datas):
+    mnames = unit["members"]
+    comb, mds = mk_comb(unit, mnames)
+    vals = {}
+    for pos in ((0, 1, 4) if unit["kind"] == "PointerAux" else (0, 1)):
+        for data in datas:
+            r.states += 1
+            oc, vs = check_pointer_stream(unit, mnames, comb, mds, data, pos, "parse")
+            r.case(nontrivial=oc == "ok", outcome=oc, transitions=2, validated=1)
+            for v in vs:
+                r.violation(v["sig"], v["case"], v["detail"])
+            if oc == "ok" and unit["kind"] == "PointerAux" and len(vals) < 12:
+                sr = solo(mds[0], data, unit["offset"] if unit["offset"] >= 0 else max(0, len(data) + unit["offset"]))
+                if sr[0] == "ok":
+                    vals.setdefault(repr(sr[1]), sr[1])
+    if unit["kind"] == "PointerAux":
+        for v in list(vals.values()) + [None, 1, "ab", 300]:
+            for data in (b"", b"\x40\x41", b"\x40\x41\x42\x43\x44\x45"):
+                for pos in (0, 3):
+                    r.states += 1
+                    oc, vs = check_pointer_stream(unit, mnames, comb, mds, data, pos, "build", v)
+                    r.case(nontrivial=oc == "ok", outcome="build-" + oc, transitions=2, validated=1)
+                    for x in vs:
+                        r.violation(x["sig"], x["case"], x["detail"])
+    r.sample({"combinator": unit["kind"], "members": mnames, "offset": unit["offset"], "strings": len(datas)}, cap=2)
+    return r
+
+
 def run_unit(unit, tier):
     r = UnitResult()
     L = INFO["bounds"][tier]["L"]
@@ -314,6 +439,8 @@ def run_unit(unit, tier):
     else:
         combos = [unit["members"]]
         datas = sigma(L)
+    if kind in ("PointerAux", "PointerRoot"):
+        return run_pointer_stream(unit, tier, r, datas)
     for mnames in combos:
         comb, mds = mk_comb(unit, mnames)
         starts = STARTS
@@ -352,6 +479,8 @@ def run_unit(unit, tier):
 def replay(case):
     unit = case["unit"]
     comb, mds = mk_comb(unit, case["members"])
+    if unit["kind"] in ("PointerAux", "PointerRoot"):
+        return check_pointer_stream(unit, case["members"], comb, mds, case["data"], case["start"], case["op"], eval(case["value"]))[1]
     if case["op"] == "parse":
         return check_parse(unit, case["members"], comb, mds, case["data"], case["start"])[1]
     return check_build(unit, case["members"], comb, mds, eval(case["value"]), case["start"])
